@@ -4,7 +4,7 @@ from props.subgen import Sub
 
 
 def check(run, tier, seed, replay):
-    compcheck.run(run, "C09", [Sub(gen_pool, ["partition", "image"])], tier, seed, replay,
+    compcheck.run(run, "C09", [Sub(gen_pool, ["partition", "image"])], tier, seed, replay, poolskel=True,
                   rule="(a) cutting loop: string-length vectors around the cut size (cut exactly at / one below / one above a prefix sum, "
                        "cut 0, cut > total) built into a REAL 2-thread block dictionary whose starting_indexes / part sizes / samples "
                        "must equal the model's partition; (b) image bytes of the same input built with 1, 2, 3 and 8 threads must be "
